@@ -1,6 +1,16 @@
 HOOK_COMMITS = []
-IMPLEMENTED = {"C01", "C02", "C03", "C04", "C05", "C06", "C07", "C09", "C10", "C11", "C12", "C14", "C18"}
+IMPLEMENTED = {"C01", "C02", "C03", "C04", "C05", "C06", "C07", "C08", "C09", "C10", "C11", "C12", "C13", "C14", "C18"}
 TABLE = {
+ "C08": {
+  "technique": "model-based property testing over generated multi-round device scenarios: f64 least-squares reference with running error bound, exact one-sided formulas, independent constraint re-check; exhaustive data-presence patterns",
+  "text": "Inverters, gear trains (by ratio and by tooth list), axles of 0..6 terminals and differentials in all four trust modes are driven for up to 8 rounds in which each terminal gets data through its own slot, a connected external terminal, both or neither; after each update the own slots are compared with the least-squares projection of the states read just before it (bound x4), with exact formulas for implied values and recomputed branches, with the newest contributing timestamp, and the constraint is re-checked on the written slots. Every own/partner data-presence pattern is enumerated for 13 device shapes.",
+  "note": "The device is held to writing only the terminals the statement names (see DESIGN.md C08 note on one-sided updates). Devices are heap-pinned for the case.",
+ },
+ "C13": {
+  "technique": "model-based property testing over generated device chains and command histories with per-update and end-to-end relay oracles",
+  "text": "Chains of 1..5 inverters, gear trains and axles joined terminal to terminal receive commands with globally distinct timestamps at random terminals over up to 8 rounds and are updated in chain, reverse or random order; after every device update each of its terminals must read the most recently issued command among those present, with issuer timestamp and kind and the value mapped to the reader side within 2 ulp; after an in-order pass the far end must read the globally newest command scaled by the product of ratios; a differential must leave command slots and reads bit-identical.",
+  "note": "Chains use devices with >= 2 terminals; a 1-terminal axle is tested alone. Ties only occur between propagated copies of one command.",
+ },
  "C06": {
   "technique": "property testing over generated profiles x boundary-focused query times; oracle = mutual-consistency tables of the accessors with t1..t3 recovered by bisection",
   "text": "For thousands of generated profiles (built-to-be-accepted, unconstrained and accept/reject-edge families; all three end-command kinds) the phase boundaries are recovered from get_piece by bisection and every accessor is queried at i64 extremes, negative times, each boundary +-1 ns and interior points of each phase; piece/mode/acceleration/velocity/position/history must describe the same instant, pieces must be monotone in t, the history value must be bit-identical to the matching accessor, and the end command must be returned forever after completion.",
